@@ -5,7 +5,8 @@
 From Continuum Require Import Model.Base Model.VTable.
 
 Record C08_obs_row := { or_key : pk; or_tx : Z; or_index : nat;
-                        or_next : option Z; or_prev : option Z }.
+                        or_next : option Z; or_prev : option Z;
+                        or_same : bool }.   (* next / previous, when present, are versions of the SAME entity *)
 Record C08_case := {
   c8_validity : bool;                      (* strategy = validity?                       *)
   c8_e2e  : bool;                          (* the table was written by the code's own write path *)
@@ -24,6 +25,7 @@ Definition C08_corr (c : C08_case) : bool :=
     match find_row (c8_tbl c) (or_key o) (or_tx o) with
     | None => false
     | Some r =>
+        or_same o &&
         (index (c8_tbl c) r =? or_index o)%nat &&
         oz_eqb (otx (if c8_validity c then next_V (c8_tbl c) r else next_S (c8_tbl c) r)) (or_next o) &&
         oz_eqb (otx (if c8_validity c then prev_V (c8_tbl c) r else prev_S (c8_tbl c) r)) (or_prev o)
@@ -63,6 +65,7 @@ Definition C08_prop (c : C08_case) : bool :=
         match pos_of (or_tx o) txs with
         | None => false
         | Some i =>
+            or_same o &&
             (or_index o =? i)%nat &&
             oz_eqb (or_next o) (nth_error txs (S i)) &&
             oz_eqb (or_prev o) (match i with O => None | S j => nth_error txs j end)
